@@ -127,6 +127,19 @@ class Trace:
         self.items.append(tuple(item))
 
 
+class _CanonHooks:
+    """view of the hook table keyed by canonical (generic-free) def paths; follows later additions"""
+
+    def __init__(self, hooks):
+        self.hooks = hooks
+
+    def get(self, cpath):
+        for k, v in self.hooks.items():
+            if "::" in k and FX.canon_path(k) == cpath:
+                return v
+        return None
+
+
 class Interp:
     """Interprets functions of one Facts object."""
 
@@ -136,6 +149,7 @@ class Interp:
         self.depth = 0
         self.max_inline = max_inline
         self.hooks = hooks or {}  # def path -> python callable(interp, args, node) overriding inlining
+        self.hooks_canon = _CanonHooks(self.hooks)
         self.bounds = Bounds()
         self.fn_stack = []
         self.chal_count = {}
@@ -163,7 +177,8 @@ class Interp:
     # -- entry -----------------------------------------------------------------
     def call_fn(self, path, args, node=None):
         """inline a crate-local function by def path with evaluated args"""
-        fn = self.F.fn(path)
+        path = self.F.resolve(path)
+        fn = self.F.fns[path]
         if self.depth > self.max_inline:
             raise Unanalysable(f"inlining depth exceeded at {path}")
         env = {}
